@@ -3,9 +3,9 @@ import vlib
 from checks import compiled_common as CC
 from checks import C07
 
-UNITS = ['Opcodes', 'Codec', 'Verifier', 'JitLogic', 'JitEnc', 'JitArms', 'JitMulDiv', 'JitMisc', 'ClMisc']
-MODELS = ['theories/Verifier.vo', 'gen/JitLogic.vo', 'theories/X86Enc.vo', 'gen/JitEnc.vo', 'theories/X86Sem.vo', 'gen/JitArms.vo', 'theories/X86Seq.vo', 'gen/JitMulDiv.vo', 'gen/JitMisc.vo']
-PROOFS = ['theories/JitLogicProofs.v', 'theories/JitEncProofs.v', 'theories/JitArmsProofs.v', 'theories/JitMulDivProofs.v', 'theories/JitMiscProofs.v', 'theories/ClMiscProofs.v', 'theories/VerifierProofs.v', 'theories/InterpProofs.v']
+UNITS = ['Opcodes', 'Codec', 'Verifier', 'JitLogic', 'JitEnc', 'JitArms', 'JitMulDiv', 'JitMisc', 'ClMisc', 'JitFrame']
+MODELS = ['theories/Verifier.vo', 'gen/JitLogic.vo', 'theories/X86Enc.vo', 'gen/JitEnc.vo', 'theories/X86Sem.vo', 'gen/JitArms.vo', 'theories/X86Seq.vo', 'gen/JitMulDiv.vo', 'gen/JitMisc.vo', 'theories/X86Stk.vo', 'gen/JitFrame.vo']
+PROOFS = ['theories/JitLogicProofs.v', 'theories/JitEncProofs.v', 'theories/JitArmsProofs.v', 'theories/JitMulDivProofs.v', 'theories/JitMiscProofs.v', 'theories/JitFrameProofs.v', 'theories/ClMiscProofs.v', 'theories/VerifierProofs.v', 'theories/InterpProofs.v']
 ENGINE = 'jit'
 
 
